@@ -3407,11 +3407,8 @@ impl Server {
             }).unwrap_or(false);
             
             if should_remove {
-                // Check if connection has active subscriptions before cleaning up
-                if self.pubsub.is_subscribed(id) {
-                    // Skip cleanup for connections with active subscriptions
-                    continue;
-                }
+                // A closing connection goes whether or not it is subscribed: its
+                // subscriptions are dropped with it below
                 to_remove.push(id);
             }
         }
